@@ -1471,11 +1471,11 @@ static int sp_dgemm(char tA, char tB, number alpha, void *a, void *b,
         for (l=0; l<m; l++)
           Z->rowind[Z->colptr[j]+l] = l;
 
-      for (k=B->colptr[j]; k<B->colptr[j+1]; k++) {
+      for (l=B->colptr[j]; l<B->colptr[j+1]; l++) {
 
-        double a_ = alpha.d*((double *)B->values)[k];
+        double a_ = alpha.d*((double *)B->values)[l];
         axpy[DOUBLE](&m, &a_, A +
-            (tA=='N' ? B->rowind[k]*m : B->rowind[k]),
+            (tA=='N' ? B->rowind[l]*m : B->rowind[l]),
             (tA=='N' ? &intOne : &k),
             (double *)Z->values + Z->colptr[j], &intOne);
       }
